@@ -144,27 +144,21 @@ Qed.
 Lemma call_bodyless : forall cfg cl i a hd ex, c_empty cl = true -> (ex = None \/ ex = Some []) ->
   rs_body (call cfg cl i a hd ex) = Some [].
 Proof.
-  intros cfg cl i a hd ex H [-> | ->]; unfold call; rewrite H; cbn [nonempty orb rs_body]; destruct hd; reflexivity.
+  intros cfg cl i a hd ex H [-> | ->]; unfold call; rewrite H; cbn [orb rs_body]; destruct hd; reflexivity.
 Qed.
 
-Lemma call_explicit : forall cfg cl i a b,
-  b <> [] -> rs_body (call cfg cl i a false (Some b)) = Some b.
-Proof.
-  intros cfg cl i a b Hb. unfold call.
-  destruct b as [|x b]; [congruence|]. reflexivity.
-Qed.
+Lemma call_explicit : forall cfg cl i a b, rs_body (call cfg cl i a false (Some b)) = Some b.
+Proof. intros. unfold call. reflexivity. Qed.
 
-Lemma call_generated : forall cfg cl i a ex,
-  c_empty cl = false -> (ex = None \/ ex = Some []) -> call cfg cl i a false ex = generate cfg cl i a.
-Proof.
-  intros cfg cl i a ex H [->| ->]; unfold call; rewrite H; reflexivity.
-Qed.
+Lemma call_generated : forall cfg cl i a,
+  c_empty cl = false -> call cfg cl i a false None = generate cfg cl i a.
+Proof. intros cfg cl i a H. unfold call. rewrite H. reflexivity. Qed.
 
 Lemma call_status : forall cfg cl i a hd ex,
   rs_status (call cfg cl i a hd ex) = dec (c_code cl) ++ 32 :: c_title cl.
 Proof.
   intros. unfold call.
-  destruct (nonempty match ex with Some b => b | None => [] end || c_empty cl || hd); [reflexivity|].
+  destruct (match ex with Some _ => true | None => false end || c_empty cl || hd); [reflexivity|].
   apply generate_ctype.
 Qed.
 
